@@ -23,7 +23,7 @@ Proof.
   destruct (push c (mkFrame (c_fsz0 c) 0) (c_hdr c)) as [[off fr]|] eqn:Ep; [|discriminate].
   intros H; inversion H; subst; clear H.
   apply push_some in Ep. simpl in Ep. destruct Ep as (_ & Hs & Hl & Hfit & _).
-  destruct Hwf as (W1 & W2 & W3 & W4 & W5 & W6 & W7 & W8).
+  destruct Hwf as (W1 & W2 & W3 & W4 & W5 & W6 & W7 & W8 & _).
   constructor; simpl; unfold depth; simpl.
   - constructor; simpl.
     + reflexivity.
@@ -227,7 +227,7 @@ Proof.
       unfold step. destruct (N.eqb_spec (a_refs (st_a st)) 0) as [Hz|_]; [exfalso; eapply reach_refs_nz; eauto|].
       unfold with_scope. rewrite Hk. unfold realloc, realloc_fast. rewrite (land_aligned c Hwf _ Hal). simpl.
       pose proof (reach_inv _ _ R) as [G _ _]. rewrite Hf in G. unfold validate.
-      rewrite (outer_not_validated c _ _ _ _ _ _ _ G Hk Hmt).
+      rewrite (outer_not_validated c _ _ _ _ _ _ _ G Hk Hmt), (gv_true c Hwf).
       destruct (N.leb_spec new old) as [Hle|Hgt]; [|reflexivity].
       assert (Hsv : c_sv c = true).
       { apply orb_true_iff in Hgrow. destruct Hgrow as [H|H]; [assumption|]. apply N.ltb_lt in H. lia. }
@@ -289,7 +289,7 @@ Proof.
   { right. split; [reflexivity|]. apply orb_true_iff in Eov.
     destruct Eov as [E|E]; apply N.leb_le in E; unfold SIZE_LIMIT in E; lia. }
   apply orb_false_iff in Eov. destruct Eov as [Eov1 Eov2]. apply N.leb_gt in Eov1. apply N.leb_gt in Eov2.
-  destruct Hwf as (W1 & W2 & W3 & W4 & W5 & W6 & W7 & W8).
+  destruct Hwf as (W1 & W2 & W3 & W4 & W5 & W6 & W7 & W8 & _).
   destruct (grow 64 (c_fsz0 c) (c_gap c + (size + c_hdr c))) as [fsz|] eqn:Eg.
   - apply grow_some in Eg; [|assumption]. destruct Eg as (Gtot & Gdiv & Glim).
     unfold frame_alloc.
@@ -417,7 +417,7 @@ Proof.
       assert (k = O).
       { apply andb_false_iff in Hmt. destruct Hmt as [H|H]; [auto|].
         apply orb_false_iff in H. destruct H as [_ H]. apply N.ltb_ge in H. lia. }
-      subst k. rewrite (validate_inner _ _ _ R Hf Hs). simpl.
+      subst k. rewrite (validate_inner _ _ _ R Hf Hs), (gv_true c Hwf). simpl.
       destruct (reach_frames _ _ R Hnz) as [_ F2].
       destruct (a_frames (st_a st)) as [|fr rest] eqn:Efr; [congruence|].
       assert (Hfin : (exists st' ev,
@@ -682,7 +682,7 @@ Qed.
 (* the configurations of the two builds, from the generated constants       *)
 (* ======================================================================== *)
 Definition cfg_of (gap pagesize : N) : cfg :=
-  mkCfg maxalign sizeof_frame sizeof_cleanup gap (frame_mult * pagesize) shrink_validated.
+  mkCfg maxalign sizeof_frame sizeof_cleanup gap (frame_mult * pagesize) shrink_validated grow_validated.
 
 Lemma cfg_wf gap ps :
   gap = poison_normal \/ gap = poison_asan ->
@@ -696,7 +696,9 @@ Proof.
   split; [exact Hdiv|].
   split; [vm_compute; reflexivity|].
   split; [exact Hfit|]. split; [exact Hlim|].
-  assert (0 < sizeof_frame) by (vm_compute; reflexivity). lia.
+  split; [assert (0 < sizeof_frame) by (vm_compute; reflexivity); lia|].
+  (* c_gv: the generated switch grow_validated must be true (08bdded in place) *)
+  reflexivity.
 Qed.
 
 (* the page sizes in use: 4 KiB, 8 KiB, 16 KiB, 64 KiB; normal and ASan build *)
